@@ -160,6 +160,7 @@ cfg["C21"] = {
 }
 
 ops_q = P("VerifReallocOp", "fault=8") + P("VerifRemoveOp", "fault=14") + P("VerifDissociateOp", "fault=12")
+create_op = P("VerifCreateOp", "fault=24,count=2")
 node_ops = P("VerifAddNodeOp", "fault=6") + P("VerifRemoveNodeOp", "fault=6") + P("VerifSetNodeOp", "fault=8")
 ledger_assume = [cal_stubs,
     "abstract ledger world: store = set of workload records with one symbolic scalar resource amount each; resource manager = per-node usage with delta/incr semantics (the real plugin arithmetic is verified in C04/C08 and composed by argument only); engine = set of containers with the amount applied",
@@ -168,16 +169,16 @@ ledger_assume = [cal_stubs,
     "pre-state satisfies usage(node) = sum of recorded workloads (the invariant itself), amounts in [0,2^30]"]
 cfg["C10"] = {
     "title": "Node usage always equals the sum of the workloads recorded on the node", "design_ref": "DESIGN.md §4 C10",
-    "runs": [{"dir": CAL, "inline_go": True, "quick": ops_q, "thorough": ops_q, "samples": 4}],
-    "bounds": "one inductive step per operation (ReallocResource, RemoveWorkload, DissociateWorkload through the exported API) from an arbitrary ledger state with 2 workloads on one node satisfying the invariant, with no fault or one fault at any of the <=14 call positions",
-    "outside": "whole-API histories, interleavings of concurrent operations, create/replace pipelines (goroutine fan-out over several nodes), the real plugin arithmetic (C04/C08), capacity bounds",
+    "runs": [{"dir": CAL, "inline_go": True, "quick": ops_q + create_op, "thorough": ops_q + create_op + P("VerifCreateOp", "fault=30,count=3"), "samples": 4}],
+    "bounds": "one inductive step per operation (ReallocResource, RemoveWorkload, DissociateWorkload, CreateWorkload through the exported API) from an arbitrary ledger state satisfying the invariant (2 workloads on one node; create: 2 empty nodes with 0-2 deployable slots each, AUTO, count<=2/3), with no fault or one fault at any call position (<=24)",
+    "outside": "whole-API histories, interleavings of concurrent operations, replace, the real plugin arithmetic (C04/C08), capacity bounds",
     "assumptions": ledger_assume,
 }
 cfg["C11"] = {
     "title": "A failed cluster operation leaves no lasting effect", "design_ref": "DESIGN.md §4 C11",
-    "runs": [{"dir": CAL, "inline_go": True, "quick": ops_q + node_ops, "thorough": ops_q + node_ops, "samples": 4}],
-    "bounds": "ReallocResource, RemoveWorkload, DissociateWorkload, AddNode, RemoveNode, SetNode through the exported API on a ledger of 2 workloads / 1 node; every position of the single failing step (<=14 positions)",
-    "outside": "create and replace (goroutine fan-out pipelines, not encoded); failures of compensating steps; concurrency; values returned through the `return v, f()` idiom (evaluation order unspecified by the language, go/ssa and gc differ)",
+    "runs": [{"dir": CAL, "inline_go": True, "quick": ops_q + node_ops + create_op, "thorough": ops_q + node_ops + create_op + P("VerifCreateOp", "fault=30,count=3"), "samples": 4}],
+    "bounds": "ReallocResource, RemoveWorkload, DissociateWorkload, CreateWorkload, AddNode, RemoveNode, SetNode through the exported API on a ledger of 2 workloads / 1-2 nodes; every position of the single failing step (<=24 positions)",
+    "outside": "replace (not encoded); failures of compensating steps; concurrency; values returned through the `return v, f()` idiom (evaluation order unspecified by the language, go/ssa and gc differ)",
     "assumptions": ledger_assume,
 }
 
@@ -227,6 +228,14 @@ cfg["C36"] = {
 cfg["C33"]["runs"].append({"dir": CPUMEM, "permute_ranges": [GCP], "quick": [], "thorough": P("VerifRealloc", "c=2,numa=1", "c=3,numa=1,or=1000"), "samples": 1})
 cfg["C06"]["runs"].append({"dir": SCHED, "permute_ranges": [GCP], "quick": [], "thorough": P("VerifPlans", "c=2,numa=1,r=1000,v=0"), "samples": 1})
 
+cfg["C12"] = {
+    "title": "Deployment results are complete and truthful", "design_ref": "DESIGN.md §4 C12 / §7.2",
+    "runs": [{"dir": CAL, "inline_go": True, "quick": create_op, "thorough": create_op + P("VerifCreateOp", "fault=30,count=3"), "samples": 4}],
+    "bounds": "Calcium.CreateWorkload through the exported API: AUTO over two nodes with 0-2 deployable slots each (symbolic), count 1-2 (thorough 3), symbolic resource amount, no fault or one fault at any of the store / plugin / engine / WAL calls (<=24 positions). ONE sequential schedule: pool tasks and goroutines run to completion at their spawn point, channels are FIFO queues",
+    "outside": "every other interleaving of the per-node and per-instance goroutines (the property is quantified over requests and faults, not schedules; other schedules are not explored); other strategies and node filters at this level (the strategies themselves: C01-C03); file injection, hooks, image pull",
+    "assumptions": ledger_assume,
+}
+
 meta = {
     "C01": "Every feasible path of strategy.Deploy and the five real strategy functions (real container/heap and sort SSA) is executed with capacities, counts, need, limit, usage and rate symbolic; on each path z3 proves the plan assertions (only candidates, 0<=d<=capacity, exact totals, EACH/FILL selection sizes, AUTO node limit) for all values inside the bounds, or returns a model that is replayed natively. Bounded by node count and, for AUTO/GLOBAL, by need.",
     "C02": "Same exploration; on every path z3 proves err==nil <=> a harness-side reference feasibility predicate (saturating sums, no wrap) and that a refusal returns no plan.",
@@ -236,6 +245,7 @@ meta = {
     "C06": "All paths of CPU planning / capacity / deploy calculation over V0 states and hostile configurations are explored; a path that panics or exceeds the step budget is a violation after native replay. Bounded detection, not a termination proof.",
     "C07": "On each path the reported capacity c is compared with the real allocation for a symbolic count: accepted iff count <= c; memory-only capacity drops by exactly k after committing k; zero-capacity nodes are absent and the total is the saturating sum.",
     "C08": "One inductive step per operation from an arbitrary pre-state satisfying usage = R + w: after alloc/realloc every component equals the sum over live workloads, and operation+rollback restores the pre-state exactly. Covers histories of any length if the invariant is right.",
+    "C12": "The real CreateWorkload pipeline (doCreateWorkloads, doGetDeployStrategy with the real AUTO strategy, doDeployWorkloads, doDeployWorkloadsOnNode, doDeployOneWorkload, utils.Txn, lock wrappers) runs against the ledger world under the run-to-completion goroutine model; z3-decided paths prove the stream closes with one failure and nothing created or exactly one message per planned instance, successes name recorded+started workloads on the reported node, failures leave no record/container, no processing marker remains.",
     "C15": "FixNodeResource and GetNodeResourceInfo are executed on a node whose recorded usage is arbitrary in every component; z3 proves per path that the stored usage afterwards equals the component-wise sum of the workloads and that a second check reports no differences.",
     "C32": "CalculateRemap is executed on arbitrary node states with every bound/unbound mix; z3 proves the answer covers exactly the unbound workloads with exactly the cores having >= one share base free (all cores if none).",
     "C09": "cobalt.Manager.GetNodesDeployCapacity and mergeCapacity are executed with symbolic plugin answers and a symbolic merge order; z3 proves per path that the offered set is the intersection, capacity the minimum, usage/rate the weighted average (as exact fractions) and that two merge orders give identical results.",
